@@ -25,9 +25,10 @@ CONSTANTS
 VARIABLES pool, act, checked, blk
 vars == <<pool, act, checked, blk>>
 
-Normal    == pool.saved = pool.height /\ pool.tip = pool.height
-Crashed   == pool.saved < pool.height
-Replaying == pool.saved = pool.height /\ pool.tip > pool.height
+Mid       == pool.upd.on          \* an Update is between two committed-marker writes
+Normal    == ~Mid /\ pool.saved = pool.height /\ pool.tip = pool.height
+Crashed   == ~Mid /\ pool.saved < pool.height
+Replaying == ~Mid /\ pool.saved = pool.height /\ pool.tip > pool.height
 
 Lists == UNION {[1..n -> AddIds] : n \in 1..MaxList}
 
@@ -42,8 +43,10 @@ Do(a) ==
   /\ pool' = r.p
   /\ act' = a @@ [res |-> r.res, why |-> r.why]
 
+\* other goroutines (peers gossiping evidence, the proposer's PendingEvidence) also run while
+\* the consensus goroutine is inside Update; a store step waits while pendingMtx is held
 DoAdd(id) ==
-  /\ Normal
+  /\ Normal \/ (Mid /\ ~AddBlocks(Ctx, pool, id))
   /\ Do([name |-> "Add", id |-> id])
   /\ UNCHANGED <<checked, blk>>
 
@@ -63,6 +66,7 @@ DoReport(q) ==
   /\ UNCHANGED <<checked, blk>>
 
 DoUpdate(ids, crash) ==
+  /\ ~Mid
   /\ ~Crashed
   /\ pool.height + 1 <= Ctx.N
   /\ IF Replaying THEN ids = blk ELSE ids \in {<< >>, checked}
@@ -71,28 +75,44 @@ DoUpdate(ids, crash) ==
   /\ checked' = << >>
 
 DoPending(mb) ==
-  /\ Normal
+  /\ Normal \/ Mid
   /\ LET r == PendingEvidence(Ctx, pool, mb) IN
      act' = [name |-> "Pending", mb |-> mb, got |-> r.got, bytes |-> r.bytes, res |-> "ok", why |-> "none"]
   /\ UNCHANGED <<pool, checked, blk>>
 
 DoRestart ==
+  /\ ~Mid
   /\ pool.tip = pool.height        \* not in the middle of a replay
   /\ Do([name |-> "Restart"])
   /\ checked' = << >>
   /\ UNCHANGED blk
 
 DoAddBegin(tk, id) ==
-  /\ Normal
+  /\ Normal \/ Mid
   /\ Cardinality(pool.inflight) < MaxInflight
   /\ ~HasTicket(pool, tk)
   /\ Do([name |-> "AddBegin", tk |-> tk, id |-> id])
   /\ UNCHANGED <<checked, blk>>
 
 DoAddEnd(tk) ==
-  /\ Normal
+  /\ Normal \/ (Mid /\ ~StoreLocked(pool))
   /\ HasTicket(pool, tk)
   /\ Do([name |-> "AddEnd", tk |-> tk, id |-> TicketId(pool, tk)])
+  /\ UNCHANGED <<checked, blk>>
+
+\* Update stopped right before its k-th committed-marker write, and its continuation
+DoUpdateBegin(ids, k) ==
+  /\ Normal
+  /\ pool.height + 1 <= Ctx.N
+  /\ ids # << >> /\ ids = checked
+  /\ k \in 1..Len(ids)
+  /\ Do([name |-> "UpdateBegin", to |-> pool.height + 1, ids |-> ids, k |-> k])
+  /\ blk' = ids
+  /\ checked' = << >>
+
+DoUpdateEnd ==
+  /\ Mid
+  /\ Do([name |-> "UpdateEnd", to |-> pool.upd.to, ids |-> pool.upd.ids, late |-> << >>])
   /\ UNCHANGED <<checked, blk>>
 
 Tickets == IF MaxInflight = 1 THEN {"t1"} ELSE {"t1", "t2"}
@@ -104,6 +124,8 @@ Next ==
   \/ \E ids \in {<< >>, checked, blk}, crash \in BOOLEAN : DoUpdate(ids, crash)
   \/ \E mb \in Bounds : DoPending(mb)
   \/ DoRestart
+  \/ \E k \in 1..MaxList : DoUpdateBegin(checked, k)
+  \/ DoUpdateEnd
   \/ \E tk \in Tickets, id \in BeginIds : DoAddBegin(tk, id)
   \/ \E tk \in Tickets : DoAddEnd(tk)
 
